@@ -8,7 +8,7 @@ src="$1"; prop="$2"; expect="$3"
 if [ -n "$(git -C /repo status --porcelain)" ]; then echo "repo not clean"; exit 2; fi
 case "$src" in
   revert:*) git -C /repo show "${src#revert:}" | git -C /repo apply -R || { echo "cannot revert"; exit 2; } ;;
-  *) git -C /repo apply "$src" || { echo "cannot apply $src"; exit 2; } ;;
+  *) git -C /repo apply "$(realpath "$src")" || { echo "cannot apply $src"; exit 2; } ;;
 esac
 out=$(./check "$prop" quick 2>&1); rc=$?
 git -C /repo checkout -- . ; git -C /repo clean -fdq
